@@ -191,7 +191,7 @@ def main(tier: str) -> int:
         failed = [nm for bit, nm in ((2, "C13a relative-import resolution / diagnosis"), (4, "C13b longest existing prefix"),
                                      (8, "C13c derived name locates the same file")) if code & bit]
         if failed:
-            if clash:
+            if clash and not (code & 1):   # known = inside the listed class AND the failure the model predicts
                 kf_hits += 1
             else:
                 new_viol.append({**m, "violated": failed})
